@@ -12,7 +12,7 @@ DIFF=/tmp/seed2-$P/change$I.diff; DEMO=/tmp/seed2-$P/demo$I.rs
 place_demo() {
   case "$P-$I" in
     C09-1|C09-2|C11-2) cat $DEMO >> src/server/cloud/server.rs; KIND=lib;;
-    C10-1|C10-2|C13-1) f=src/server/cloud/server.rs; head -n -1 $f > $f.new; cat $DEMO >> $f.new; echo '}' >> $f.new; mv $f.new $f; KIND=lib;;
+    C10-1|C10-2|C13-1|C12-2) f=src/server/cloud/server.rs; head -n -1 $f > $f.new; cat $DEMO >> $f.new; echo '}' >> $f.new; mv $f.new $f; KIND=lib;;
     C08-1) cp $DEMO src/server/cloud/c08_demo1.rs; printf '\n#[cfg(all(test, feature = "cloud"))]\nmod c08_demo1;\n' >> src/server/cloud/mod.rs; KIND=lib; NAME=c08_demo1;;
     *) cp $DEMO tests/seed_demo.rs; KIND=test;;
   esac
